@@ -15,7 +15,7 @@ import (
 )
 
 func symPutPayload() *svc.PutPayload {
-	p := &svc.PutPayload{ID: nondetStringUpTo("id", 2), Tenant: nondetString("tenant", 1)}
+	p := &svc.PutPayload{ID: nondetStringUpTo("id", deep(2)), Tenant: nondetString("tenant", 1)}
 	switch nondetChoice("focus", 6) {
 	case 5:
 		// array of unsigned 64-bit integers carried in metadata
@@ -27,7 +27,7 @@ func symPutPayload() *svc.PutPayload {
 		}
 	case 4:
 		// optional string carried in metadata, with an enum validation
-		v := nondetStringUpTo("mode", 2)
+		v := nondetStringUpTo("mode", deep(2))
 		p.Mode = &v
 	case 0:
 		if nondetBool("cnt-set") {
@@ -55,18 +55,18 @@ func symPutPayload() *svc.PutPayload {
 	case 2:
 		switch nondetChoice("tags-len", 3) {
 		case 1:
-			p.Tags = []string{nondetStringUpTo("t0", 1)}
+			p.Tags = []string{nondetStringUpTo("t0", deep(1))}
 		case 2:
-			p.Tags = []string{nondetStringUpTo("t0", 1), nondetStringUpTo("t1", 1)}
+			p.Tags = []string{nondetStringUpTo("t0", deep(1)), nondetStringUpTo("t1", deep(1))}
 		}
 		if nondetBool("m-set") {
-			p.M = map[string]int32{nondetStringUpTo("mk", 1): nondetInt32("mv")}
+			p.M = map[string]int32{nondetStringUpTo("mk", deep(1)): nondetInt32("mv")}
 		}
 	case 3:
 		if nondetBool("item-set") {
 			p.Item = &svc.Item{N: nondetInt("item-n")}
 			if nondetBool("item-s-set") {
-				v := nondetStringUpTo("item-s", 1)
+				v := nondetStringUpTo("item-s", deep(1))
 				p.Item.S = &v
 			}
 		}
@@ -147,10 +147,10 @@ func VerifC10_p1_put() {
 
 // VerifC10_p1_result: result -> generated server message -> generated client result.
 func VerifC10_p1_result() {
-	res := &svc.PutResult{Rid: nondetStringUpTo("rid", 2)}
+	res := &svc.PutResult{Rid: nondetStringUpTo("rid", deep(2))}
 	res.Item = &svc.Item{N: int(nondetInt32("item-n"))}
 	if nondetBool("item-s-set") {
-		v := nondetStringUpTo("item-s", 1)
+		v := nondetStringUpTo("item-s", deep(1))
 		res.Item.S = &v
 	}
 	want := *res
@@ -201,7 +201,7 @@ func (c *loopClient) Put(ctx context.Context, in *svcpb.PutRequest, opts ...grpc
 // BuildPutFunc/EncodePutRequest/DecodePutResponse) against the generated
 // server, with and without metadata already attached to the caller's context.
 func VerifC10_p1_invoker() {
-	p := &svc.PutPayload{ID: nondetStringUpTo("id", 1), Tenant: nondetString("tenant", 1)}
+	p := &svc.PutPayload{ID: nondetStringUpTo("id", deep(1)), Tenant: nondetString("tenant", 1)}
 	want := *p
 	var got *svc.PutPayload
 	eps := &svc.Endpoints{Put: func(ctx context.Context, v any) (any, error) {
